@@ -423,6 +423,10 @@ func run(id, tier string) int {
 	}
 	corpus, _ := filepath.Glob(filepath.Join(root, "corpus", strings.ToLower(id), "*.json"))
 	sort.Strings(corpus)
+	if os.Getenv("VERIF_NO_CORPUS") == "1" {
+		// sensitivity runs only: judge the generated search alone, without the saved regression cases
+		corpus = nil
+	}
 	type rres struct {
 		path          string
 		violated, ran bool
@@ -702,7 +706,17 @@ func run(id, tier string) int {
 	}
 	eb, _ := json.MarshalIndent(ev, "", " ")
 	_ = os.MkdirAll(filepath.Join(root, "evidence"), 0o755)
-	_ = os.WriteFile(filepath.Join(root, "evidence", id+".json"), eb, 0o644)
+	if os.Getenv("VERIF_REPO") != "" {
+		// a run against a scratch tree (seeded change, mutant) must not replace the record of /repo's own run
+		_ = os.WriteFile(filepath.Join(root, "evidence", "tmp", id+"-alt-evidence.json"), eb, 0o644)
+	} else {
+		_ = os.WriteFile(filepath.Join(root, "evidence", id+".json"), eb, 0o644)
+	}
+	if tier == "thorough" && os.Getenv("VERIF_REPO") == "" {
+		// the next quick run rewrites evidence/<id>.json; the record of the deepest run is kept beside it
+		_ = os.MkdirAll(filepath.Join(root, "evidence", "thorough"), 0o755)
+		_ = os.WriteFile(filepath.Join(root, "evidence", "thorough", id+".json"), eb, 0o644)
+	}
 
 	seenK := map[string]bool{}
 	for _, l := range knownLines {
